@@ -101,14 +101,14 @@ def fmt_point(cfg, z):
     out = f"{fmt_year(y, cfg['xdigits'])}{mo:02d}{d:02d}T{h:02d}{mi:02d}"
     if cfg.get("secs"):
         out += f"{s:02d}"
-    return out + cfg["tz"]
+    return out + ("" if cfg.get("nodesig") else cfg["tz"])
 
 
 def resolution(cfg):
     return 1 if cfg.get("secs") else 60
 
 
-_STD = re.compile(r"([+-]\d{5,}|\d{4})(\d\d)(\d\d)T(\d\d)(\d\d)(\d\d)?(Z|[+-]\d\d(?:\d\d)?)")
+_STD = re.compile(r"([+-]\d{5,}|\d{4})(\d\d)(\d\d)T(\d\d)(\d\d)(\d\d)?(Z|[+-]\d\d(?:\d\d)?)?")
 
 
 def decode_point(cfg, s):
@@ -126,7 +126,8 @@ def decode_point(cfg, s):
     sec = int(m.group(6) or 0)
     if not (1 <= mo <= 12 and 1 <= d <= days_in_month(cfg["cal"], y, mo) and h < 24 and mi < 60 and sec < 60):
         return None
-    return instant(cfg["cal"], y, mo, d, h, mi, sec, m.group(7))
+    # no designator: the assumed (cycle point) time zone
+    return instant(cfg["cal"], y, mo, d, h, mi, sec, m.group(7) or cfg["tz"])
 
 
 _DUR = re.compile(r"([+-])?P(?:(\d+)W)?(?:(\d+)D)?(?:T(?:(\d+)H)?(?:(\d+)M)?(?:(\d+)S)?)?")
